@@ -1,14 +1,20 @@
 #!/usr/bin/env python3
-"""C03 -- the Verilog processor (processor.sv + memory.sv wired as in hex.sv) is cycle-for-cycle equivalent to the ISA.
+"""C03 -- the Verilog processor (processor.sv + memory.sv wired as in hex.sv) is cycle-for-cycle equivalent to the ISA; so are
+        the two shipped plain-Verilog copies of the processor, verilog/processor.v and synth/processor.v.
 proof : Properties_C03.v -- the design regenerated from the working tree (gen/RtlHex.v) IS the hand-written reference
         datapath RefRtl (reflection, vm_compute over 256 bytes), and RefRtl refines Isa.step under Inv /\\ in_range, per clock
-        and for whole runs from reset with the testbench's system-call shim as environment.
+        and for whole runs from reset with the testbench's system-call shim as environment.  Theorems 6-9 (RtlCopies.v):
+        C16's equivalence of the copies with processor.sv (gen/RtlV.v, gen/RtlVSynth.v, gen/RtlSv.v) composed with the
+        reference datapath at the ports of the processor: same request, same next registers, same reset, and -- wired to
+        the memory as hex.sv does -- the same clock-by-clock refinement of the ISA.
 tie   : translator validation -- extracted RtlSem.cycle/outs/wire of the generated design vs the Verilated `hex` top,
         in lock-step on planted states.
 oracle: Verilated `hex` (built from the working tree, --public-flat-rw) vs extracted Isa.step after every clock: pc, areg,
         breg, oreg, written word, o_syscall_valid/o_syscall -- on planted states (all 256 bytes x corner grid, judged only
         inside Inv /\\ in_range; the rest is run and reported) and on whole runs of toolchain binaries with hextb's
-        system-call shim re-implemented in the harness."""
+        system-call shim re-implemented in the harness; warm resets from planted states; and the Verilated copies
+        (verilog/processor.v, synth/processor.v, top processor) fed at their ports with the fetched byte and the read data
+        of the same judged planted states, against the same Isa.step successors."""
 import glob, json, os, re, shutil, sys
 sys.path.insert(0, os.path.dirname(os.path.abspath(__file__)))
 import vlib, gen_rtl, tbcommon
@@ -122,6 +128,18 @@ def norm_w(w, cells):
     return w
 
 
+def ref_daddr(op, n, a, b, o):
+    """word address of the data request (RefRtl.r_daddr): what memory.sv would be asked for"""
+    opr = o | n
+    if op <= 2:
+        return opr & 0x7ffff
+    if op == 6:
+        return ((a & 0x7ffff) + (opr & 0x7ffff)) & 0x7ffff
+    if op in (7, 8):
+        return ((b & 0x7ffff) + (opr & 0x7ffff)) & 0x7ffff
+    return 0
+
+
 def coq_failures():
     d = vlib.scratch()
     open(os.path.join(d, 'Diag.v'), 'w').write(
@@ -144,11 +162,13 @@ def main():
                               'Verilator 5.006 front end incl. --flatten (shared by translator and oracle)',
                               'tools/vl2coq.py (XML -> vexp) and RtlSem.v (state <-> environment, wires, clocked write), validated on every run against the Verilated hex top',
                               'Vexp.eval as the 2-state meaning of an expression', 'ExtrOcamlBasic extraction + ocaml/rtldrv.ml',
-                              'harness/rtl_hex.cpp (incl. the re-implemented system-call shim), g++ 12']
+                              'harness/rtl_hex.cpp (incl. the re-implemented system-call shim), harness/rtl_proc.cpp (the copies at their ports), g++ 12',
+                              'RtlCopies.pcycle: the hand-written wiring of a processor copy to the memory (fetch byte at o_f_addr, read word at o_d_addr, store when o_d_valid and o_d_we), as hex.sv/memory.sv do for processor.sv -- the copies have no top of their own in the repository']
     ck.assumptions = ['Inv: register widths, memory words < 2^32, low nibble of oreg_q clear (proved to hold after reset and to be preserved)',
                       'in_range: next pc / branch / BRB target / LDAP result < 800000; word addresses < 200000 follow from Isa.step = Ok',
                       'READ system call: the memory write is the testbench shim\'s; run theorems assume it does not overwrite the byte of its own SVC instruction (read_safe) -- '
                       'KNOWN FINDING (known_findings.json, kind read-overwrites-own-svc): inside the literal quantifier the RTL+shim and the ISA differ on exactly that shape; exhibited on every run by two hand-assembled images',
+                      'covered designs: the hex top with verilog/processor.sv (theorems 1-5, whole runs) and the two plain-Verilog copies verilog/processor.v, synth/processor.v at the processor boundary and per clock (theorems 6-9); whole runs of the copies follow by induction from the per-clock theorem but are not stated separately',
                       'runs start from a properly reset state (registers 0, image loaded); hextb\'s own reset sequence is property C13',
                       '2-state semantics as Verilator implements it; timing, X-propagation, synthesis not modelled',
                       'file streams (>= 256) are empty in the run harness; console input is stdin']
@@ -198,6 +218,7 @@ def main():
             'outside_Inv': 0, 'outside_range': 0}
     would_differ = {'outside_Inv': 0, 'outside_range': 0, 'isa_undefined_svc': 0, 'isa_undefined_opr': 0}
     distinct = set()
+    judged_cases = []
     if cases:
         open(os.path.join(d, 'cases.txt'), 'w').write('\n'.join(cases) + '\n')
         rc1, o1 = sh('%s step < cases.txt > real.txt' % har, cwd=d, timeout=3600)
@@ -258,6 +279,7 @@ def main():
                 continue
             dist['judged'] += 1
             distinct.add((byte, iregs, iw, ev))
+            judged_cases.append((i, byte, iregs, iw, (pc0, a0, b0, o0), cells))
             if not same:
                 nviol += 1
                 if nviol <= 3:
@@ -268,6 +290,53 @@ def main():
                 ck.sample({'case': c, 'isa_successor': I[i], 'rtl': R[i], 'generated_design': M[i] if M else None})
         ck.log('planted states: %d (%s); judged differences %d; translator-validation differences %d; outside-quantifier differences (not judged) %s'
                % (len(cases), dist, nviol, tdiff, would_differ))
+        # ---- the two plain-Verilog copies (verilog/processor.v, synth/processor.v; theorems 6-9 compose C16's equivalence with the
+        # reference datapath): their Verilated models, fed at the ports with the fetched byte and the read data of the same planted
+        # states, against the same extracted Isa.step successors -- every judged case
+        copies = {}
+        for variant, fname in (('v', 'verilog/processor.v'), ('vsynth', 'synth/processor.v')):
+            pexe, plog = gen_rtl.build_proc(variant)
+            if pexe is None:
+                ck.broken.append('Verilator cannot build %s from the working tree: %s' % (fname, plog[-400:]))
+                continue
+            lines = []
+            for (i, byte, iregs, iw, (pc0, a0, b0, o0), cells) in judged_cases:
+                dad = ref_daddr(byte >> 4, byte & 15, a0, b0, o0)
+                lines.append('1 %d 0 %d %d %d %d %d' % (byte, pc0, a0, b0, o0, cells.get(dad, 0)))
+            open(os.path.join(d, 'copy_%s.txt' % variant), 'w').write('\n'.join(lines) + '\n')
+            rcp, op_ = sh('%s < copy_%s.txt > copy_%s.out' % (pexe, variant, variant), cwd=d, timeout=1800)
+            P = [l[2:] for l in open(os.path.join(d, 'copy_%s.out' % variant)).read().split('\n') if l.startswith('R ')]
+            if rcp == 124:
+                ck.broken.append('the Verilated %s did not finish the planted states within the time limit (machine loaded?): inconclusive' % fname)
+                continue
+            if rcp != 0 or len(P) != len(lines):
+                ck.violation('the Verilated %s stopped on a planted state (rc=%d, %d/%d results)' % (fname, rcp, len(P), len(lines)),
+                             {'case': cases[judged_cases[len(P)][0]] if len(P) < len(judged_cases) else None, 'copy': fname, 'log': op_[-300:]}, tags={'kind': 'crash', 'copy': variant})
+                continue
+            ncopy = 0
+            for (i, byte, iregs, iw, (pc0, a0, b0, o0), cells), pl, line in zip(judged_cases, P, lines):
+                outs_, regs_ = [dict(x.split('=') for x in part.split()) for part in pl.split('|')]
+                outs_ = {k_: int(v_) for k_, v_ in outs_.items()}
+                got = (int(regs_['pc_q']), int(regs_['areg_q']), int(regs_['breg_q']), int(regs_['oreg_q']))
+                w = ('W %d %d' % (outs_['o_d_addr'], outs_['o_d_data'])) if outs_['o_d_valid'] and outs_['o_d_we'] else '-'
+                opc = byte >> 4
+                dad = ref_daddr(opc, byte & 15, a0, b0, o0)
+                good = (got == iregs and norm_w(w, cells) == iw and outs_['o_f_addr'] == pc0 and outs_['o_f_valid'] == 1 and
+                        outs_['o_syscall_valid'] == (1 if byte == 0xD3 else 0) and (byte != 0xD3 or outs_['o_syscall'] == a0) and
+                        (opc not in (0, 1, 6, 7) or (outs_['o_d_valid'] == 1 and outs_['o_d_addr'] == dad)))
+                ck.cov['evaluations'] += 1
+                if not good:
+                    ncopy += 1
+                    nviol += 1
+                    if ncopy <= 2:
+                        ck.violation('after one clock %s differs from the ISA successor on byte 0x%02x: ISA [%s]; %s at its ports (i_f_data = %d, i_d_data = %s, registers pc areg breg oreg = %d %d %d %d) gives [%s]'
+                                     % (fname, byte, I[i], fname, byte, line.split()[-1], pc0, a0, b0, o0, pl.strip()),
+                                     {'case': cases[i], 'format': 'pc areg breg oreg ncells (addr val)*', 'copy': fname, 'copy_case': line,
+                                      'copy_case_format': 'plant byte rst pc areg breg oreg ddata (harness/rtl_proc.cpp)', 'isa': I[i], 'rtl_copy': pl.strip(),
+                                      'processor_sv': R[i], 'replay_cmd': './check C03 --replay <this file>'}, tags={'kind': 'step', 'copy': variant, 'opcode': '%x' % opc})
+            copies[fname] = {'judged': len(lines), 'differing': ncopy}
+        ck.cov['copies_against_isa'] = copies
+        ck.log('copies against the ISA: %s' % copies)
     ck.cov['evaluations'] += 3 * len(cases)
     # ---- warm resets: from any planted state (= any state a run may have reached), i_rst raised between two clock edges or
     # together with one: the registers are 0 at once and stay 0, nothing is stored, and while reset is held the design shows the
